@@ -170,7 +170,14 @@ class TdmsWriter(object):
         self._channel_types.update(channel_types)
 
     def __enter__(self):
-        self.open()
+        try:
+            self.open()
+        except Exception:
+            # Don't leave the data file open if the index file couldn't be opened
+            if self._file_path is not None and self._file is not None:
+                self._file.close()
+                self._file = None
+            raise
         return self
 
     def __exit__(self, exc_type, exc_value, exc_traceback):
